@@ -493,6 +493,24 @@ def analyse(fn, roles, prog, lib_roles=None, want_kinds=("W", "R"), callsite_goa
     res = []
     counters = {}
 
+    # ---- measured extents: a pointer without a declared capacity whose string was measured with a bounded length function
+    #      (l = strnlen_s(p, n)) may afterwards be read for l elements and the terminator: capacity (l + 1) elements, valid where the measuring call dominates
+    measured = {}
+    for b in fn.j["blocks"]:
+        for i in b["insts"]:
+            if i["op"] in ("call", "invoke") and i.get("callee") in RETBOUND and "id" in i and i.get("args"):
+                root, off = A.ptr(i["args"][0])
+                if root is None or off is None or not (off.is_const() and off.c == 0) or caps.cap(root)[0] is not None or root in measured:
+                    continue
+                unit = {"i8*": 1, "i16*": 2, "i32*": 4}.get(i["args"][0].get("ty"), 1)
+                measured[root] = ((A.lin({"k": "v", "id": i["id"]}) + Lin.const(1)).scale(unit), "measured:" + api_base(i["callee"]), i)
+
+    def cap_of(root, inst):
+        cap, role = caps.cap(root)
+        if cap is None and inst is not None and root in measured and measured[root][2] is not inst and fn.inst_dominates(measured[root][2], inst):
+            return measured[root][0], measured[root][1]
+        return cap, role
+
     # ---- ends of what the function writes into each root (for the 'no gap in front of the slack clearing' rule):
     #      a store at off covers [off, off+size); a libc/library writer returning the count r of elements stored covers [off, off + r*unit)
     written_ends = {}
@@ -528,10 +546,10 @@ def analyse(fn, roles, prog, lib_roles=None, want_kinds=("W", "R"), callsite_goa
                 related = True
         return False if related else None
 
-    def check(blk, what, line, root, off, size, kind, zero_fill=False):
+    def check(blk, what, line, root, off, size, kind, zero_fill=False, inst=None):
         if kind not in want_kinds:
             return
-        cap, role = caps.cap(root)
+        cap, role = cap_of(root, inst)
         if cap is None:
             return
         F = facts_at(blk)
@@ -558,7 +576,7 @@ def analyse(fn, roles, prog, lib_roles=None, want_kinds=("W", "R"), callsite_goa
             if op in ("load", "store"):
                 po = i["ops"][0] if op == "load" else i["ops"][1]
                 root, off = A.ptr(po)
-                check(b["id"], op, i.get("line"), root, off, Lin.const(i["size"]), "R" if op == "load" else "W")
+                check(b["id"], op, i.get("line"), root, off, Lin.const(i["size"]), "R" if op == "load" else "W", inst=i)
             elif op in ("call", "invoke"):
                 cal = i.get("callee") or ""
                 if callsite_goals and cal in callsite_goals and prog.resolve(fn, cal) is not None:
@@ -604,7 +622,7 @@ def analyse(fn, roles, prog, lib_roles=None, want_kinds=("W", "R"), callsite_goa
                         if size is None:
                             continue
                     elif ln[0] in ("nul", "unb", "argnul"):
-                        cap, role = caps.cap(root)
+                        cap, role = cap_of(root, i)
                         if cap is not None and k in want_kinds and ln[0] != "argnul":
                             ckk = (k, "call " + cal + " (not bounded by an argument)", role)
                             counters[ckk] = counters.get(ckk, 0) + 1
@@ -622,7 +640,7 @@ def analyse(fn, roles, prog, lib_roles=None, want_kinds=("W", "R"), callsite_goa
                     if k == "W" and (cal.startswith("llvm.memset") or cal in ("memset", "wmemset")) and len(i["args"]) > 1:
                         v = i["args"][1]
                         zf = v.get("k") == "c" and v["v"] == 0
-                    check(b["id"], "call " + cal, i.get("line"), root, off, size, k, zero_fill=zf)
+                    check(b["id"], "call " + cal, i.get("line"), root, off, size, k, zero_fill=zf, inst=i)
     if probe is not None:
         class Ctx:
             pass
@@ -745,6 +763,10 @@ BYTE_DMAX = ("_memcpy16_s_chk", "_memcpy32_s_chk", "_memmove16_s_chk", "_memmove
 # library-internal writers whose result is the number of elements stored: callee -> (buffer argument, element size)
 COUNT_RESULT = {"safec_vsnprintf_s": (2, 1)}
 
+def api_base(name):
+    return name[1:-4] if name.startswith("_") and name.endswith("_chk") else name
+
+
 READONLY_DEST = set()     # library functions that never write through their 'dest' parameter (search / compare / test functions): set by all_roles()
 
 
@@ -762,6 +784,8 @@ def all_roles(prog):
     for n in BYTE_DMAX:
         if n in roles:
             roles[n] = [("dest", "dmax", 1)] + [x for x in roles[n] if x[0] != "dest"]
+    if "_wcstombs_s_chk" in roles and not any(x[0] == "src" for x in roles["_wcstombs_s_chk"]):
+        roles["_wcstombs_s_chk"].append(("src", "len", 4))      # at most len bytes are produced, each wide character yields at least one
     if "_bsearch_s_chk" in roles:
         roles["_bsearch_s_chk"] = [("base", "basebos", 1)]
     return roles
